@@ -353,6 +353,7 @@ class State:
         self.udistinct = set()
         self.subst: Dict[tuple, RF] = {}
         self.rnd_args: Dict[int, RF] = {}
+        self.rnd_epoch: Dict[int, int] = {}
         self.rnd_index: Dict[tuple, int] = {}
         self.effects: List[tuple] = []
         self.flags: List[tuple] = []        # (kind, site, detail) soft findings (float arithmetic ...)
@@ -364,6 +365,15 @@ class State:
         self.type_defs: Dict[str, object] = {}
         self.cls_fields: Dict[tuple, object] = {}
         self.known_absent = set()
+        self.prior_effects = []     # effects of the earlier call(s) of a replayed case
+        self.memo_hidden = False    # recomputation: nothing memoised is visible
+        self.absent_before = set()
+        self.never_found = set()    # terms known to be dimensionless on this path
+        self.found_units = {}       # (type, scale) -> unit a directory look-up by term found
+        self.keyed_names = {}
+        self.lookup_memo = {}       # (directory, key) -> found?  (consulted by the calls of a replayed case)
+        self.lru = {}               # memoised function -> [(args, kwargs, value)] seen on this path
+        self.epoch = 0              # bumped between the calls of a replayed case: ambient state may have changed
         self.unit_defs: Dict[str, object] = {}
         self.notes: List[str] = []
 
@@ -371,6 +381,13 @@ class State:
     def fresh(self, prefix):
         self.counter += 1
         return f"{prefix}{self.counter}"
+
+    def fresh_keyed(self, prefix, key):
+        """A name for an unknown that is a function of `key`: the same unknown whenever it is asked for again."""
+        k = (prefix, key)
+        if k not in self.keyed_names:
+            self.keyed_names[k] = self.fresh(prefix)
+        return self.keyed_names[k]
 
     # -- types
     def new_type(self, tid=None, generic=False, **attrs) -> str:
@@ -712,23 +729,47 @@ class State:
                     return False
         return True
 
+    def bump_epoch(self):
+        """The ambient state may have changed: the default rounding mode is another symbol (roundings under it are
+        other roundings), look-ups that failed may succeed now (what was found stays found)."""
+        self.epoch += 1
+        self.absent_before |= self.known_absent
+        self.known_absent = set()
+        self.lookup_memo = {k: v for k, v in self.lookup_memo.items() if v}
+
     def rnd(self, prec: int, arg: RF) -> RF:
         arg = self.norm(arg)
         if prec == 0 and self.integer_valued(arg):
             return arg          # rounding an integer to precision 0 is the identity
-        key = (prec, arg.key())
+        key = (prec, arg.key()) if not self.epoch else (prec, arg.key(), self.epoch)
         n = self.rnd_index.get(key)
         if n is None and not (arg.d.is_const()):
             # rational functions are not stored in canonical form: intern by semantic equality
-            for (p_, _k), m_ in self.rnd_index.items():
-                if p_ == prec and isinstance(p_, int) and self.rnd_args[m_].equals(arg):
+            for k_, m_ in self.rnd_index.items():
+                p_ = k_[0]
+                if p_ == prec and isinstance(p_, int) and (k_[2] if len(k_) > 2 else 0) == self.epoch and \
+                        self.rnd_args[m_].equals(arg):
                     n = m_
                     break
         if n is None:
             n = len(self.rnd_args) + 1
             self.rnd_index[key] = n
             self.rnd_args[n] = arg
+            self.rnd_epoch[n] = self.epoch
         return RF.atom(("rnd", prec, n))
+
+    def rnd_epochs(self, rf: RF):
+        """The ambient states (epochs) under whose default mode the roundings in a value were made."""
+        out, todo = set(), [self.norm(rf)]
+        for _ in range(20):
+            if not todo:
+                break
+            r = todo.pop()
+            for a in r.atoms():
+                if a[0] == "rnd":
+                    out.add(self.rnd_epoch.get(a[2], 0))
+                    todo.append(self.norm(self.rnd_args[a[2]]))
+        return tuple(sorted(out))
 
     def expand_rnd(self, rf: RF) -> RF:
         """Replace every rounding atom by its argument (exact value)."""
